@@ -12,7 +12,7 @@ MODULE = 'Ndt.Props.C07'
 THEOREMS = ['Ndt.richRule_length', 'Ndt.richCall_length', 'Ndt.richCall_nonempty', 'Ndt.richTerms_le',
             'Ndt.richRule_moments', 'Ndt.richCall_getElem?', 'Ndt.richardson_annihilates',
             'Ndt.richardson_columnwise', 'Ndt.richNodes_nodup_real', 'Ndt.richNodes_nodup_complex',
-            'Ndt.richErrShort_nonneg', 'Ndt.richFact_nonneg', 'Ndt.richErrMain_nonneg',
+            'Ndt.richErrShort_nonneg', 'Ndt.richFact_nonneg', 'Ndt.richErrMain_nonneg', 'Ndt.maxNrm_nonneg', 'Ndt.richErrMain_nonneg_real', 'Ndt.richErr_nonneg_complex',
             'Ndt.evalP_lagrangeCoeffs', 'Ndt.correlate_getElem']
 EPS = 2.0 ** -52
 C_ROUND = 64.0
@@ -136,7 +136,12 @@ def run(ctx):
                 seq = np.array([[complex(rng.randint(-64, 64) / 8, rng.randint(-64, 64) / 8) for _c in range(ncols)] for _r in range(length)])
             else:
                 seq = np.array([[rng.randint(-1024, 1024) / 16 for _c in range(ncols)] for _r in range(length)])
-            steps = np.array([[2.0 ** (-r)] * ncols for r in range(length)])
+            # steps as callers pass them: positive (Derivative), negative (Limit from below), complex (Limit on a complex path)
+            sgn = rng.choice([1.0, 1.0, -1.0])
+            if isinstance(rho, complex) and rng.random() < 0.7:
+                steps = np.array([[sgn * 0.5 / rho ** r] * ncols for r in range(length)])
+            else:
+                steps = np.array([[sgn * 2.0 ** (-r)] * ncols for r in range(length)])
             call_cases.append((rho, step, order, nt, length, ncols, seq, steps))
         lines, meta = [], []
         for (rho, step, order, nt, length, ncols, seq, steps) in call_cases:
@@ -195,7 +200,7 @@ def run(ctx):
                 ctx.mismatch('richardson.call', [str(rho), step, order, nt, length, ncols, seq.tolist()],
                              new.tolist().__str__(), model.tolist().__str__(), 'err %.3g > bound %.3g' % (err, bound))
             # error estimates: Float model on the captured arguments (private attachment, optional)
-            if have_private and captured and not np.iscomplexobj(seq) and not isinstance(rho, complex):
+            if have_private and captured:
                 err_queue.append(captured[-1])
     finally:
         if have_private:
@@ -234,7 +239,13 @@ def run(ctx):
                 else:
                     h = h0 / rq_ ** t
                     seq[t, c] = float(Ls[c] + sum(a * h ** (order + step * j) for j, a in enumerate(As[c])))
-        steps = np.array([[abs(complex(h0)) / abs(rho) ** t] * ncols for t in range(length)])
+        # the steps as a caller passes them: the actual h_t, which are negative for a limit from below and complex on a
+        # complex path (Limit), positive real for Derivative
+        sgn = rng.choice([1, 1, -1])
+        if cplx:
+            steps = np.array([[sgn * complex(h0) / rho ** t] * ncols for t in range(length)])
+        else:
+            steps = np.array([[sgn * float(h0) / float(rho) ** t] * ncols for t in range(length)])
         key = (str(rho), step, order, nt, length, ncols, str(Ls[0]))
         R = Richardson(step_ratio=rho, step=step, order=order, num_terms=nt)
         try:
@@ -255,8 +266,9 @@ def run(ctx):
             continue
         if abs(np.sum(w) - 1) > C_ROUND * EPS * (cond + 1) * max(1.0, np.max(np.abs(w))) * len(w):
             ctx.violation('weights do not sum to one', weights=[str(x) for x in w], **rep)
-        if abserr.size and not (np.all(np.isfinite(abserr)) and np.all(abserr >= 0)):
-            ctx.violation('error estimate negative or non-finite', abserr=str(abserr.tolist()), **rep)
+        if abserr.size and not (np.all(np.isfinite(abserr)) and np.all(np.imag(abserr) == 0) and np.all(np.real(abserr) >= 0)):
+            ctx.violation('error estimate is not a finite non-negative real number', abserr=str(abserr.tolist())[:300],
+                          steps_sign=sgn, **rep)
         for c in range(ncols):
             for t in range(new.shape[0]):
                 mag = float(np.max(np.abs(w)) * np.sum(np.abs(seq[t:t + len(w), c])))
@@ -273,43 +285,113 @@ def run(ctx):
                            'by the correlation of DESIGN Appendix B; rounding is bounded by C*eps*cond, not proved')
 
 
+def err_correspondence(ctx, ncases):
+    """the `richardson.err` engine on its own (used by C02, whose theorems are about the same definitions): random configurations
+    and sequences through Richardson.__call__, the arguments of _estimate_error captured, the Float model run on them"""
+    from numdifftools.extrapolation import Richardson
+    orig = Richardson.__dict__.get('_estimate_error')
+    if orig is None:
+        ctx.notes.append('engine richardson.err skipped: attachment point Richardson._estimate_error missing')
+        return
+    f0 = orig.__func__ if isinstance(orig, staticmethod) else orig
+    captured = []
+
+    def spy(new_sequence, old_sequence, steps, rule):
+        r = f0(new_sequence, old_sequence, steps, rule)
+        captured.append((np.array(new_sequence), np.array(old_sequence), np.array(steps), np.array(rule), np.array(r)))
+        return r
+    Richardson._estimate_error = staticmethod(spy)
+    rng = ctx.rng
+    try:
+        for _ in range(ncases):
+            rho, step, order, nt, length = gen_cfg(rng)
+            ncols = rng.choice([1, 2, 3])
+            if isinstance(rho, complex):
+                seq = np.array([[complex(rng.uniform(-8, 8), rng.uniform(-8, 8)) for _c in range(ncols)] for _r in range(length)])
+                steps = np.array([[rng.choice([1.0, -1.0]) * 0.5 / rho ** r] * ncols for r in range(length)])
+            else:
+                # a geometric transient plus noise, so that both `converged` outcomes occur
+                L, a, q = rng.uniform(-5, 5), rng.uniform(-3, 3), rng.uniform(0, 0.9)
+                seq = np.array([[L + a * q ** r * (1 if rng.random() < 0.8 else 0) + rng.choice([0.0, 1e-17, 1e-3]) * rng.uniform(-1, 1)
+                                 for _c in range(ncols)] for r in range(length)])
+                steps = np.array([[rng.choice([1.0, -1.0]) * 2.0 ** (-r)] * ncols for r in range(length)])
+            try:
+                Richardson(step_ratio=rho, step=step, order=order, num_terms=nt)(seq, steps)
+            except Exception as ex_:
+                ctx.violation('Richardson.__call__ raised %r' % ex_, cfg=[str(rho), step, order, nt, length, ncols])
+    finally:
+        Richardson._estimate_error = orig
+    _check_err(ctx, captured)
+
+
+def _cx_words(arr):
+    out = []
+    for z in np.asarray(arr, dtype=complex).ravel():
+        out += [f2hex(z.real), f2hex(z.imag)]
+    return ' '.join(out)
+
+
+def _knife_edge(new, old, fact):
+    """True when some `err <= tol` decision of the last branch is within rounding of flipping (the complex modulus of the
+    model, sqrt(re^2+im^2), and numpy's hypot may differ in the last place)"""
+    if new.shape[0] < 2:
+        return False
+    err = np.abs(np.diff(new, axis=0)) * fact
+    tol = np.maximum(np.abs(new[1:]), np.abs(new[:-1])) * EPS * fact
+    return bool(np.any(np.abs(err - tol) <= 1e-13 * np.maximum(err, tol)) and np.any(err != tol))
+
+
 def _check_err(ctx, queue):
     if not queue:
         return
     eng = ctx.engine('richardson.err')
-    facts = run_driver(['richfact %s %s' % (f2hex(EPS), ' '.join(f2hex(x) for x in cap[3])) for cap in queue], 'C07f')
+    cplx_flags = [any(np.iscomplexobj(a) for a in cap[:4]) for cap in queue]
+    facts = run_driver([('richfactc %s %s' % (f2hex(EPS), _cx_words(cap[3]))) if cf else
+                        ('richfact %s %s' % (f2hex(EPS), ' '.join(f2hex(x) for x in cap[3]))) for cap, cf in zip(queue, cplx_flags)], 'C07f')
     lines, shapes = [], []
-    for cap, fh in zip(queue, facts):
+    for cap, fh, cf in zip(queue, facts, cplx_flags):
         new, old, steps, rule, ret = cap
         new = new.reshape(new.shape[0], -1)
         old = old.reshape(old.shape[0], -1)
-        steps = np.asarray(steps, dtype=float).reshape(steps.shape[0], -1)
+        steps = np.asarray(steps).reshape(np.shape(steps)[0], -1)
         for c in range(new.shape[1]):
-            lines.append('richerr %s %s | %s | %s | %s' % (
-                f2hex(EPS), fh, ' '.join(f2hex(x) for x in new[:, c]), ' '.join(f2hex(x) for x in old[:, c]),
-                ' '.join(f2hex(x) for x in steps[:, c])))
+            if cf:
+                lines.append('richerrc %s %s | %s | %s | %s' % (f2hex(EPS), fh, _cx_words(new[:, c]), _cx_words(old[:, c]), _cx_words(steps[:, c])))
+            else:
+                lines.append('richerr %s %s | %s | %s | %s' % (
+                    f2hex(EPS), fh, ' '.join(f2hex(x) for x in new[:, c]), ' '.join(f2hex(x) for x in old[:, c]),
+                    ' '.join(f2hex(x) for x in steps[:, c])))
         shapes.append(new.shape[1])
     out = run_driver(lines, 'C07e')
     k = 0
-    for cap, ncols in zip(queue, shapes):
+    for cap, ncols, cf, fh in zip(queue, shapes, cplx_flags, facts):
         new, old, steps, rule, ret = cap
         model = np.array([[hex2f(x) for x in o.split()] for o in out[k:k + ncols]]).T
         k += ncols
-        impl = np.asarray(ret, dtype=float).reshape(np.shape(ret)[0], -1) if np.size(ret) else np.zeros((0, ncols))
         eng['cases'] += 1
+        ctx.count('richardson.err', 'complex' if cf else 'real')
+        ctx.count('richardson.err', 'short branch' if old.shape[0] < 2 else 'main branch')
+        if np.iscomplexobj(ret) and np.any(np.imag(ret) != 0):
+            ctx.mismatch('richardson.err', {'new': str(new.tolist()), 'rule': str(rule.tolist())}, str(np.ravel(ret)[:4].tolist()),
+                         model.ravel()[:4].tolist(), 'the implementation returns complex error estimates, the model real ones')
+            continue
+        impl = np.real(np.asarray(ret)).astype(float).reshape(np.shape(ret)[0], -1) if np.size(ret) else np.zeros((0, ncols))
         if model.size == 0 and impl.size == 0:
             eng['exact'] += 1
             continue
         if model.shape != impl.shape:
-            ctx.mismatch('richardson.err', {'new': new.tolist(), 'old': old.tolist()}, list(impl.shape), list(model.shape), 'shape')
+            ctx.mismatch('richardson.err', {'new': str(new.tolist()), 'old': str(old.tolist())}, list(impl.shape), list(model.shape), 'shape')
             continue
         worst = max(ulps(float(a), float(b)) for a, b in zip(impl.ravel(), model.ravel()))
         if worst == 0:
             eng['bit_identical'] += 1
-        elif worst <= 16:
+        elif worst <= (64 if cf else 16):
             eng['within_ulp'] += 1
+        elif cf and _knife_edge(new.reshape(new.shape[0], -1), old, hex2f(fh)):
+            eng['skipped'] += 1
+            ctx.count('richardson.err', 'complex knife-edge (err == tol within rounding), not compared')
         else:
-            ctx.mismatch('richardson.err', {'new': new.tolist(), 'old': old.tolist(), 'rule': rule.tolist()},
+            ctx.mismatch('richardson.err', {'new': str(new.tolist()), 'old': str(old.tolist()), 'rule': str(rule.tolist())},
                          impl.tolist(), model.tolist(), '%s ulp' % worst)
 
 
